@@ -37,17 +37,17 @@ var phase1Spec = solverSpec{"z3-new", func(f string, ms, seed int) []string {
 
 // Limits are deterministic resource limits (z3 rlimit, cvc5 --rlimit), so that the answer to a query does not depend
 // on how loaded the machine is; the nominal time t (ms) is converted with the rates measured on this image (z3 about
-// 2.5M units/s at the slow end, cvc5 about 50k units/s). The wall-clock limit is only a backstop, four times the
+// 2.5M units/s at the slow end, cvc5 about 50k units/s). The wall-clock limit is only a backstop, three times the
 // nominal time.
 var solverSpecs = []solverSpec{
 	{"z3-new", func(f string, ms, seed int) []string {
-		return []string{"z3-new", fmt.Sprintf("-t:%d", 4*ms), fmt.Sprintf("rlimit=%d", 2500*ms), fmt.Sprintf("smt.random_seed=%d", seed), f}
+		return []string{"z3-new", fmt.Sprintf("-t:%d", 3*ms), fmt.Sprintf("rlimit=%d", 2500*ms), fmt.Sprintf("smt.random_seed=%d", seed), f}
 	}},
 	{"cvc5", func(f string, ms, seed int) []string {
-		return []string{"cvc5", "--lang", "smt2", fmt.Sprintf("--tlimit=%d", 4*ms), fmt.Sprintf("--rlimit=%d", 50*ms), fmt.Sprintf("--seed=%d", seed), "--produce-models", f}
+		return []string{"cvc5", "--lang", "smt2", fmt.Sprintf("--tlimit=%d", 3*ms), fmt.Sprintf("--rlimit=%d", 50*ms), fmt.Sprintf("--seed=%d", seed), "--produce-models", f}
 	}},
 	{"z3", func(f string, ms, seed int) []string {
-		return []string{"z3", fmt.Sprintf("-t:%d", 4*ms), fmt.Sprintf("rlimit=%d", 2500*ms), fmt.Sprintf("smt.random_seed=%d", seed), f}
+		return []string{"z3", fmt.Sprintf("-t:%d", 3*ms), fmt.Sprintf("rlimit=%d", 2500*ms), fmt.Sprintf("smt.random_seed=%d", seed), f}
 	}},
 }
 
@@ -92,7 +92,7 @@ func runOneWall(ctx context.Context, sp solverSpec, file string, timeoutMs int) 
 }
 
 func runOne(ctx context.Context, sp solverSpec, file string, timeoutMs int) (status, out string, secs float64) {
-	return runWith(ctx, sp, file, timeoutMs, 4*timeoutMs+2000)
+	return runWith(ctx, sp, file, timeoutMs, 3*timeoutMs+2000)
 }
 
 func runWith(ctx context.Context, sp solverSpec, file string, timeoutMs, killMs int) (status, out string, secs float64) {
@@ -274,7 +274,7 @@ func SolveHint(text string, timeoutMs int, hint string) SolverResult {
 		a := <-ch
 		got++
 		res.All[a.name] = a.status
-		if a.status != "unsat" && a.status != "sat" && a.secs*1000 >= 0.9*float64(4*timeoutMs) {
+		if a.status != "unsat" && a.status != "sat" && a.secs*1000 >= 0.9*float64(3*timeoutMs) {
 			res.WallHit = true
 		}
 		raws = append(raws, a.name+": "+strings.TrimSpace(firstN(a.out, 300)))
